@@ -178,7 +178,8 @@ def run_check(pid, tier, replay=None):
     truncated = False
     pool = None
     if getattr(mod, "PARALLEL", True) and ctx.nproc > 1:
-        pool = multiprocessing.get_context("fork").Pool(ctx.nproc)
+        # JOBS: checks dominated by fork/exec use few workers (process creation is serialised in this sandbox)
+        pool = multiprocessing.get_context("fork").Pool(min(ctx.nproc, getattr(mod, "JOBS", ctx.nproc)))
     try:
         for name, elems in stages:
             bounds_attempted.append(name)
